@@ -151,7 +151,7 @@ PROPERTY = Property(
     id="C10",
     title="Every Schur variant preserves the unitary similarity A = Q T Q^H",
     rule="n >= 3 and the run performed >= 1 sweep",
-    clauses=[Clause("schur", check_schur, strategy=schur_cases, budget={"quick": 400, "thorough": 5000}, min_per_shard=8,
+    clauses=[Clause("schur", check_schur, strategy=schur_cases, budget={"quick": 400, "thorough": 16000}, min_per_shard=8,
                     shrink=False)],
     assumptions=[
         "similarity tolerance = 10 n (1+sweeps) tau max(1,||A||) + 1e3 n u (n+sweeps) ||A||, tau the variant's effective "
